@@ -170,7 +170,8 @@ def inject_faults(ch, script, g, ended, netlistable):
                 offender = ch.pick(hier, "offender")
                 pos = ch.rint(0, seams.DEFAULT_NPASSES, "pos")
             # half of these passes rewrite the offender before they fail (dirty), wherever they stand
-            block.append(["fault", "boundary", pos, offender, 1 if ch.chance(1, 2) else 0, label])
+            # ... and one in five is interrupted (a BaseException) instead of failing
+            block.append(["fault", "boundary", pos, offender, (1 if ch.chance(1, 2) else 0) + (2 if ch.chance(1, 5) else 0), label])
         elif kind == "mid":
             # a rewriting pass that has something to rewrite in this hierarchy, if there is one
             have = []
@@ -606,7 +607,7 @@ def run(scn):
             failed_calls += 1
         # ---- verdicts
         ver_now = (_design_version(ops, k), str(installed))
-        if o.get("fault_fired") and installed and installed[1] == "boundary" and installed[4]:
+        if o.get("fault_fired") and installed and installed[1] == "boundary" and installed[4] & 1:
             # a rewriting pass failed half-way through the offender: this very call can never
             # succeed again on this design, whatever elaborator is installed later
             dirty_failed[key] = _design_version(ops, k)
@@ -647,12 +648,12 @@ def run(scn):
                         res["findings"].append({"prop": "C08", "clause": "spurious-circular", "detail": [f"call #{k} {op} reports {exc[1][:120]!r} on an acyclic design"], "at": k})
                     elif o.get("fault_fired"):
                         probe("injected_failure")
-                        if key in first_error and first_error[key] != exc:
+                        if key in first_error and first_error[key] != exc and not _interrupted(first_error[key], exc):
                             res["findings"].append({"prop": "C08", "clause": "different-error-on-retry", "detail": [f"call #{k} {op}: first {first_error[key]}, now {exc}"], "at": k})
                         first_error.setdefault(key, exc)
                     elif key in first_error and installed is not None:
                         # retry unchanged, cause still present: the original error again
-                        if first_error[key] != exc:
+                        if first_error[key] != exc and not _interrupted(first_error[key], exc):
                             res["findings"].append({"prop": "C08", "clause": "different-error-on-retry", "detail": [f"call #{k} {op}: first {first_error[key]}, now {exc}"], "at": k})
                         else:
                             probe("retry_same_error")
@@ -670,7 +671,7 @@ def run(scn):
                 else:
                     probe("original_error_of_earlier_failure")
                 ver = (_design_version(ops, k), str(installed))
-                if key in retry_state and retry_state[key][1] == ver and retry_state[key][0] != exc:
+                if key in retry_state and retry_state[key][1] == ver and retry_state[key][0] != exc and not _interrupted(retry_state[key][0], exc):
                     res["findings"].append({"prop": "C08", "clause": "different-error-on-retry", "detail": [f"call #{k} {op}: first {retry_state[key][0]}, now {exc}, nothing changed in between"], "at": k})
                 elif key in retry_state and retry_state[key][1] == ver:
                     probe("retry_same_error")
@@ -697,6 +698,12 @@ def run(scn):
     faultsig = [tuple(str(x) for x in op[1:5]) for op in ops if op[0] == "fault"]
     res["sig"] = hash64(connp.shape_sig([op for op in ops if op[0] in refmodel.DESIGN_OPS]), callsig, faultsig, sess["sched"]["trace_digest"])
     return res
+
+
+def _interrupted(e1, e2):
+    """One of the two errors is an interruption (BaseException) or the library's report of one: what a
+    retry reports after an interruption is not pinned down - only that it raises, and not 'circular'."""
+    return any(e[0] == "InjectedAbort" or "interrupted" in e[1] for e in (e1, e2))
 
 
 def design_at(ops, k):
